@@ -30,6 +30,7 @@ Direct oracle (failing-input search, on the implementation only):
 from __future__ import annotations
 
 import itertools
+import os
 import warnings
 from typing import Any, Iterator
 
@@ -774,7 +775,7 @@ def main(chk: C.Check, build: C.Build) -> None:
         defs.append(f"Definition TBL : list str := {tbl.coq()}.")
         defs.append(f"Definition OUTC : list outcome := {C.clist(outc, 'outcome')}.")
         defs.append(f"Definition NS : list N := {C.clist(map(str, nums), 'N')}.")
-        groups.append({"tag": f"c18_p{pi:03d}", "defs": "\n".join(defs), "items": gitems})
+        groups.append({"tag": f"c18_{os.getpid()}_p{pi:03d}", "defs": "\n".join(defs), "items": gitems})
         if len(samples) < 5 and origin in ("random", "small") and pi % 7 == 0:
             ms = msets[len(msets) // 2]
             src = to_source(items, iter(ms))
@@ -850,7 +851,7 @@ def main(chk: C.Check, build: C.Build) -> None:
                      "tokens": [str(t) for t in real_flat(impl.tokens("{{ 'a' -}} \n"))]})
 
     correspond_groups(chk, groups, "Trim.observe (render output, ContentNode trim pairs, RawNode texts)")
-    C.correspond(chk, "c18_trim", IMPORTS, "", trim_items,
+    C.correspond(chk, f"c18_{os.getpid()}_trim", IMPORTS, "", trim_items,
                  what="Trim.trim / is_ws", shard=40 if thorough else 16)
     C.proofs_verdict(chk, proofs_ok)
 
